@@ -224,19 +224,61 @@ theorem delGlyph_detaches (h : Heap) (w : Wired h) (l g : Id) (name : String) (h
     simpa [Heap.ownerOf] using this
   · simpa [Heap.kidsOf] using d2
 
-/-- Creating a glyph under a name whose glyph object `g` is loaded (`layer.newGlyph(name)`; `insertGlyph` and a
-rename onto the name go through the same `_insertGlyph`): the replaced object and everything it owned point to
-no owner afterwards. -/
-theorem replaced_glyph_detached (h : Heap) (w : Wired h) (l g : Id) (name : String) (hl : liveLayer h l = true)
+/-- Deleting a layer from a font (`del font.layers[name]`): the operation is accepted; afterwards the layer, the
+glyph objects and the lib it owned, and everything those glyphs owned point to no owner (hence answer nothing
+and are unregistered, `detached_answers_nothing`), and the layer set does not list the layer. -/
+theorem delLayer_detaches (h : Heap) (w : Wired h) (f s l : Id) (name : String)
+    (hs : layerSetOfFont h f = some s) (hf : h.findNamed s .layer name = some l) :
+    (step h (.delLayer f name)).2 = .ok ∧
+    (∀ y, (y = l ∨ h.ownerOf y = some l ∨ ∃ k, h.ownerOf k = some l ∧ h.ownerOf y = some k) →
+      (step h (.delLayer f name)).1.ownerOf y = none) ∧
+    l ∉ (step h (.delLayer f name)).1.kidsOf s := by
+  obtain ⟨kf, ks, os⟩ := layerSetOfFont_spec w hs
+  obtain ⟨hl, kl⟩ := findNamed_some hf
+  obtain ⟨nS, eS, knS⟩ := kindOf_some ks
+  have ol := w.down s l ⟨nS, eS, Or.inr (by rw [← ownerOf_eq eS, os]; simp)⟩ (by simp) hl
+  have e : step h (.delLayer f name) = (mark (killLayer h s l) s, .ok) := by simp [step, hs, hf]
+  rw [e]
+  obtain ⟨d1, d2⟩ := killLayer_detaches w ⟨kl, ol, ks, os, kf⟩
+  refine ⟨rfl, fun y hy => ?_, ?_⟩
+  · have := d1 y hy
+    simpa [Heap.ownerOf] using this
+  · simpa [Heap.kidsOf] using d2
+
+/-- Creating a glyph under a name whose glyph object `g` is loaded (`layer.newGlyph(name)`, F16; `insertGlyph` and a
+rename onto the name go through the same `_insertGlyph`): the operation is accepted and returns a new object;
+the replaced object and everything it owned point to no owner afterwards. -/
+theorem newGlyph_replaces (h : Heap) (w : Wired h) (l g : Id) (name : String) (hl : liveLayer h l = true)
     (hf : h.findNamed l .glyph name = some g) :
-    ∀ y, y = g ∨ h.ownerOf y = some g → (dropNamed h l name).ownerOf y = none := by
+    (step h (.newGlyph l name)).2 = .id h.next ∧
+    ∀ y, y = g ∨ h.ownerOf y = some g → (step h (.newGlyph l name)).1.ownerOf y = none := by
   obtain ⟨kl, s, hs⟩ := liveLayer_spec hl
   obtain ⟨hg, kg⟩ := findNamed_some hf
   obtain ⟨f, c⟩ := layerCtx_of_live w.toStruct kl hs
   obtain ⟨ng, eg, kng, ho, hd⟩ := glyph_of_live_layer w c hg kg
-  have e : dropNamed h l name = killGlyph h l g := by simp [dropNamed, hf]
+  have e : step h (.newGlyph l name) = (mark ((addGlyph h l name).setDirty h.next) l, .id h.next) := by
+    simp [step, kl, hl]
   rw [e]
-  exact (killGlyph_detaches w eg kng ho hd).1
+  refine ⟨rfl, fun y hy => ?_⟩
+  have ed : dropNamed h l name = killGlyph h l g := by simp [dropNamed, hf]
+  have d1 := (killGlyph_detaches w eg kng ho hd).1 y hy
+  have hyl : y ≠ l := by
+    rcases hy with e1 | e1
+    · intro e2; rw [e1] at e2; rw [e2, kl] at kg; cases kg
+    · intro e2; rw [e2] at e1; exact layer_owner_not_glyph w.toStruct kl kg e1
+  have hyn : y ≠ (killGlyph h l g).next := by
+    rw [next_killGlyph]
+    intro e2
+    rcases hy with e1 | e1
+    · rw [e1] at e2; rw [e2, get_next] at eg; cases eg
+    · obtain ⟨ny, ey, _⟩ := ownerOf_some e1
+      rw [e2, get_next] at ey; cases ey
+  have gy : (mark ((addGlyph h l name).setDirty h.next) l).get y = (killGlyph h l g).get y := by
+    rw [get_mark, get_setDirty, addGlyph_eq, ed]
+    show (spawn (killGlyph h l g) l _).get y = _
+    rw [get_spawn, get_addKid, if_neg (Ne.symm hyl), get_alloc, if_neg hyn]
+  simp only [Heap.ownerOf, gy]
+  exact d1
 
 /-- Later changes to a detached object are silent: without a dispatcher `x.dirty = True` / any attribute
 change posts nothing, changes no node, no registration and no dirty flag other than the object's own. -/
